@@ -18,6 +18,48 @@ def names(node):
     return {n.id for n in ast.walk(node) if isinstance(n, ast.Name)}
 
 
+
+
+def data_update_host(repo):
+    """the function that rewrites the $DATA record: nonmem Model.update_source, or the function it hands that block to"""
+    mm = repo.module('pharmpy.model.external.nonmem.model')
+    us = mm.classes['Model'].methods.get('update_source')
+    if us is None:
+        raise AnalysisError('nonmem Model.update_source not found')
+
+    def has(fn, attr):
+        return any(isinstance(c, ast.Call) and isinstance(c.func, ast.Attribute) and c.func.attr == attr for c in ast.walk(fn.node))
+    if has(us, 'set_filename'):
+        return us
+    for c in calls_in(us.node):
+        if isinstance(c.func, ast.Name):
+            r = repo.resolve(mm, c.func.id)
+            if r and r[0] == 'func' and has(r[1], 'set_filename'):
+                return r[1]
+    raise AnalysisError('$DATA update (set_filename) not found in update_source or a function it calls')
+
+def regex_uses(m, f):
+    """(call, method, pattern text) for every regex applied in function f: re.match(r'..', s) as well as NAME.match(s) with NAME a
+    module-level (or local) re.compile(r'..')"""
+    out = []
+    comp = {}
+    for scope in (m.tree.body, list(ast.walk(f.node))):
+        for a in scope:
+            if isinstance(a, ast.Assign) and len(a.targets) == 1 and isinstance(a.targets[0], ast.Name) \
+                    and isinstance(a.value, ast.Call) and dotted(a.value.func) == 're.compile' and a.value.args \
+                    and isinstance(a.value.args[0], ast.Constant) and isinstance(a.value.args[0].value, str):
+                comp[a.targets[0].id] = a.value.args[0].value
+    for c in calls_in(f.node):
+        fn = dotted(c.func) or ''
+        meth = fn.split('.')[-1]
+        if meth not in ('match', 'fullmatch', 'search'):
+            continue
+        if fn.startswith('re.') and c.args and isinstance(c.args[0], ast.Constant) and isinstance(c.args[0].value, str):
+            out.append((c, meth, c.args[0].value))
+        elif isinstance(c.func, ast.Attribute) and isinstance(c.func.value, ast.Name) and c.func.value.id in comp:
+            out.append((c, meth, comp[c.func.value.id]))
+    return out
+
 def run(chk, repo, tier):
     dm = repo.module(DS)
     rel = dm.rel
@@ -142,6 +184,11 @@ def run(chk, repo, tier):
                     r = c.comparators[0]
                     if isinstance(r, ast.Constant):
                         nulls.add(r.value)
+    for n in ast.walk(cd.node):
+        if isinstance(n, ast.IfExp) and unparse(n.body) == 'null_value':      # x = null_value if <tests> else x
+            for c in ast.walk(n.test):
+                if isinstance(c, ast.Compare) and isinstance(c.comparators[0], ast.Constant):
+                    nulls.add(c.comparators[0].value)
     chk.instance(R2, f'NULL forms {sorted(map(repr, nulls))}')
     if nulls != {None, '.', ''}:
         chk.violation(R2, rel, cd.qualname, f'NULL forms {sorted(map(repr, nulls))}',
@@ -178,32 +225,41 @@ def run(chk, repo, tier):
     if not dexp or not {'D', 'd'} <= both:
         chk.violation(R2, rel, cf.qualname, 'D exponent', 'both 1D1 and 1d1 are Fortran numbers', line=cf.node.lineno,
                       witness='a data item 1d1 raises DatasetError')
-    pm = [c for c in calls_in(cf.node) if dotted(c.func) in ('re.match', 're.fullmatch', 're.search') and c.args
-          and isinstance(c.args[0], ast.Constant)]
+    # the pattern for mantissa(+|-)exponent, wherever it is written: it has to accept these spellings as a whole (the regular
+    # expression text is evaluated by the re module; nothing of pharmpy runs)
+    import re as _re
     ok_pm = False
-    for c in pm:
-        parsed = list(sre_parse.parse(c.args[0].value))
-        groups = [x for x in parsed if x[0] is sre_parse.SUBPATTERN]
-        ok_pm = len(groups) == 4
+    for c, meth, pat in regex_uses(dm, cf):
+        if '[+-]' not in pat.replace('\\', ''):
+            continue
+        try:
+            rx = _re.compile(pat)
+        except _re.error:
+            continue
+        ok_pm = all(rx.fullmatch(s_) for s_ in ('1-10', '-1.5+3', '+2-1', '2+1'))
+        # ... and the sign of the mantissa must be captured (the first element of the pattern is a group): an optional sign
+        # that is matched but not captured is lost (-1.5+3 read as 1500)
+        first = list(sre_parse.parse(pat))[:1]
+        ok_pm = ok_pm and bool(first) and first[0][0] is sre_parse.SUBPATTERN
     chk.instance(R2, f'a+b / a-b form (mantissa sign, mantissa, exponent sign, exponent): {ok_pm}')
     if not ok_pm:
         chk.violation(R2, rel, cf.qualname, 'a+b form', 'the form mantissa(+|-)exponent is not recognised', line=cf.node.lineno,
                       witness='a data item 2-1 (= 0.2) raises DatasetError')
 
     # ---------------------------------------------------------------- R3
-    mm = repo.module('pharmpy.model.external.nonmem.model')
-    us = mm.classes['Model'].methods.get('update_source')
+    us = data_update_host(repo)
+    mm = us.module
     cfg = CFG(us.node)
 
     def nodes_calling(nm):
-        return [n for n in cfg.nodes.values() if n.ast is not None and n.kind == 'stmt'
+        return [n for n in cfg.nodes.values() if n.ast is not None and n.kind in ('stmt', 'return')
                 and not isinstance(n.ast, (ast.FunctionDef, ast.ClassDef))
                 and any(isinstance(c, ast.Call) and ((isinstance(c.func, ast.Attribute) and c.func.attr == nm)
                                                      or dotted(c.func) == nm) for c in ast.walk(n.ast))]
     setfn = nodes_calling('set_filename')
     sic = nodes_calling('set_ignore_character_from_header')
     upi = nodes_calling('update_input')
-    rep = [n for n in nodes_calling('replace_records') if 'data_record' in unparse(n.ast)]
+    rep = [n for n in nodes_calling('replace_records') if 'data' in unparse(n.ast).lower()]
     if not setfn or not rep:
         raise AnalysisError('R3: $DATA update (set_filename / replace_records) not found in update_source')
     for tgt in rep:
@@ -543,17 +599,11 @@ def run_r10(chk, repo):
     if f is None:
         raise AnalysisError('convert_fortran_number not found')
     n = 0
-    for c in calls_in(f.node):
-        fn = dotted(c.func) or ''
-        if fn.split('.')[-1] not in ('match', 'fullmatch', 'search') or not c.args:
+    for c, meth, patv in regex_uses(dm, f):
+        fn = meth
+        if '[+-]' not in patv.replace('\\', ''):
             continue
-        pat = c.args[0]
-        if isinstance(pat, ast.Name):
-            pat = dm.globals_.get(pat.id, pat)
-        if isinstance(pat, ast.Call) and dotted(pat.func) == 're.compile' and pat.args:
-            pat = pat.args[0]
-        if not (isinstance(pat, ast.Constant) and isinstance(pat.value, str) and '[+-]' in pat.value.replace('\\', '')):
-            continue
+        pat = ast.Constant(value=patv)
         n += 1
         whole = fn.endswith('fullmatch') or pat.value.rstrip(')').endswith(('$', '\\Z'))
         chk.instance(R10, f'convert_fortran_number: {unparse(c)[:80]} matches the whole item: {whole}')
@@ -573,11 +623,8 @@ def run_r11_r12(chk, repo):
     from sa import reach, guards as G_
     R11 = chk.rule('R11', 'nonmem update_source: remove_ignore()/remove_accept() run when the dataset is rewritten AND when '
                           'datainfo.path differs from the path the record was generated for', floor=1)
-    mm = repo.module('pharmpy.model.external.nonmem.model')
-    cls = mm.classes.get('Model')
-    f = cls.methods.get('update_source') if cls else None
-    if f is None:
-        raise AnalysisError('nonmem Model.update_source not found')
+    f = data_update_host(repo)
+    mm = f.module
     cfg = CFG(f.node)
     n = 0
     for nd in cfg.nodes.values():
@@ -624,7 +671,10 @@ def run_r11_r12(chk, repo):
     if g is None:
         raise AnalysisError('create_nonmem_datainfo not found')
     n12 = 0
-    for c in calls_in(g.node):
+    # the per-column decision may live in a helper of the module
+    scope12 = [g] + [h for h in pm.functions.values() if h is not g and h.cls is None and any(
+        isinstance(c, ast.Call) and isinstance(c.func, ast.Name) and c.func.id == h.name for c in ast.walk(g.node))]
+    for c in [c_ for h in scope12 for c_ in calls_in(h.node)]:
         if not (dotted(c.func) or '').endswith('ColumnInfo.create'):
             continue
         kw = {k.arg: k.value for k in c.keywords}
